@@ -112,9 +112,9 @@ Lemma apply_spec s s' :
   /\ (putlocks s = false -> sem s' = sem s).
 Proof.
   intros Hnn. unfold step, do_apply. cbn [putlocks with_sigs sem pstate].
+  destruct (pstate s =? 0) eqn:Es; cbn [negb]; [|discriminate].
   destruct (putlocks s) eqn:Ep; cbn [andb].
   - destruct (LaxSem.value (sem s) =? 0) eqn:Ev; [discriminate|].
-    destruct (pstate s =? 0) eqn:Es; cbn [negb]; [|discriminate].
     intros H; inversion H; subst; clear H.
     split; [constructor; reflexivity|]. split; [lia|]. split.
     + eexists. split; [reflexivity|]. cbn. unfold JF, tag_of; cbn. repeat split; try reflexivity; intros; discriminate.
@@ -122,8 +122,7 @@ Proof.
       unfold sstep', LaxSem.sstep. cbn.
       destruct (0 <? LaxSem.value (sem s)) eqn:Eg; [|lia].
       split; [lia|reflexivity].
-  - destruct (pstate s =? 0) eqn:Es; cbn [negb]; [|discriminate].
-    intros H; inversion H; subst; clear H.
+  - intros H; inversion H; subst; clear H.
     split; [constructor; reflexivity|]. split; [lia|]. split.
     + eexists. split; [reflexivity|]. unfold JF, tag_of; cbn. repeat split; try reflexivity; intros; discriminate.
     + split; [discriminate|reflexivity].
@@ -203,19 +202,66 @@ Proof.
     + rewrite get_set_other by exact Hne. rewrite Hgk. apply HJ.
 Qed.
 
+Lemma apply_refused_spec s s' :
+  step s (EApply None None None None) = (s', RRefused) ->
+  same_env s s' /\ jobs s' = jobs s /\ sem s' = sem s /\ pstate s <> 0.
+Proof.
+  unfold step, do_apply. cbn [putlocks with_sigs sem pstate].
+  destruct (pstate s =? 0) eqn:Es; cbn [negb].
+  - destruct (putlocks s && (LaxSem.value (sem s) =? 0)); discriminate.
+  - intros H; inversion H; subst; clear H.
+    split; [constructor; reflexivity|]. split; [reflexivity|]. split; [reflexivity|lia].
+Qed.
+
+Lemma pstate_apply s : pstate (fst (step s (EApply None None None None))) = pstate s.
+Proof.
+  unfold step, do_apply. cbn [putlocks with_sigs sem pstate].
+  destruct (negb (pstate s =? 0)); [reflexivity|].
+  destruct (putlocks s && (LaxSem.value (sem s) =? 0)); [reflexivity|]. destruct (putlocks s); reflexivity.
+Qed.
+
+Lemma pstate_set_job s j f : pstate (set_job s j f) = pstate s.
+Proof. reflexivity. Qed.
+
+Lemma pstate_ack s j i p : pstate (fst (step s (EAck j i p))) = pstate s.
+Proof.
+  unfold step, do_ack.
+  destruct (cached _ j) as [x|]; [|reflexivity].
+  destruct (kind x); [reflexivity| |reflexivity|reflexivity]. destruct i; reflexivity.
+Qed.
+
+Lemma pstate_ready s j i ok t : pstate (fst (step s (EReady j i ok t))) = pstate s.
+Proof.
+  unfold step, do_ready. destruct (cached _ j) as [x|]; [|reflexivity]. cbn [fst].
+  rewrite pstate_set_job. destruct (ready x).
+  - destruct (env_bump_counter (with_sigs s []) x) as [A _ _ _]. exact A.
+  - cbn. destruct (env_bump_counter (with_sigs s []) x) as [A _ _ _]. exact A.
+Qed.
+
+Lemma close_spec s :
+  pstate s = 0 ->
+  let s' := fst (step s EClose) in
+  pstate s' = 1 /\ jobs s' = jobs s /\ putlocks s' = putlocks s /\ wlist s' = wlist s
+  /\ sem s' = LaxSem.clear (sem s).
+Proof.
+  intros H. unfold step. cbn [with_sigs pstate]. rewrite H. cbn. auto.
+Qed.
+
 (* ------------------------------------------------------------------ the system invariant *)
 Local Opaque step.
 Record YInv (n : nat) (y : sys) : Prop := {
   i_tok : forall j, cnt j (tokens y) = one (unres (par y) j);
   i_job : AllJF (par y);
   i_msg : forall j p t, In (MReady j p t) (outq y) -> t = tag_of j;
-  i_run : pstate (par y) = 0;
+  i_st : pstate (par y) = 0 \/ pstate (par y) = 1;
   i_nn : 0 <= LaxSem.value (sem (par y));
-  i_sem : putlocks (par y) = true ->
+  i_sem : putlocks (par y) = true -> pstate (par y) = 0 ->
           LaxSem.value (sem (par y)) + Z.of_nat (length (tokens y)) = LaxSem.bound (sem (par y));
-  i_cnt : (length (jobs (par y)) + todo y = n)%nat;
+  i_cnt : (length (jobs (par y)) + todo y <= n)%nat
+          /\ (pstate (par y) = 0 -> (length (jobs (par y)) + todo y = n)%nat);
   i_wk : wk y <> [];
-  i_bound : 1 <= LaxSem.bound (sem (par y))
+  i_bound : 1 <= LaxSem.bound (sem (par y));
+  i_closed : pstate (par y) = 1 -> 1 <= LaxSem.value (sem (par y))   (* close() frees every slot *)
 }.
 
 Lemma cnt_tokens j y :
@@ -233,52 +279,68 @@ Lemma one_le b : (one b <= 1)%nat. Proof. destruct b; cbn; lia. Qed.
 
 Lemma inv_submit n y y' : YInv n y -> sys_step y SSubmit = Some y' -> YInv n y'.
 Proof.
-  intros [Ht Hj Hm Hr Hnn Hs Hc Hw Hb]. cbn [sys_step].
+  intros [Ht Hj Hm Hst Hnn Hs [Hc Hc0] Hw Hb Hcl]. cbn [sys_step].
   destruct (todo y) as [|k] eqn:Etd; [discriminate|].
   destruct (step (par y) (EApply None None None None)) as [s' r] eqn:Est.
-  destruct r; try discriminate. intros H; inversion H; subst y'; clear H.
-  destruct (apply_spec _ _ Hnn Est) as ([E1 E2 E3 E4] & Hp0 & (x & Hjobs & HJx & Hrx) & Hl & Hnl).
-  set (jn := Z.of_nat (length (jobs (par y)))) in *.
-  assert (Hget : forall j, get_job s' j = if j =? jn then Some x else get_job (par y) j).
-  { intros j. rewrite !get_job_gj, Hjobs. apply gj_app_new. }
-  assert (Hfresh : get_job (par y) jn = None) by (rewrite get_job_gj; apply gj_fresh).
-  constructor; cbn [par todo taskq inq wk outq].
-  - intros j. rewrite cnt_tokens; cbn [par todo taskq inq wk outq]. rewrite cnt_app, cnt_one.
-    specialize (Ht j). rewrite cnt_tokens in Ht. unfold unres in *. rewrite Hget.
-    destruct (Z.eqb_spec j jn) as [->|Hne].
-    + rewrite Hfresh in Ht. rewrite Hrx, Z.eqb_refl. cbn in *. lia.
-    + replace (jn =? j) with false by lia. cbn [one]. lia.
-  - intros k0 y0. rewrite Hget. destruct (Z.eqb_spec k0 jn) as [->|Hne].
-    + intros H; inversion H; subst y0. exact HJx.
-    + apply Hj.
-  - exact Hm.
-  - rewrite E1. exact Hr.
-  - destruct (putlocks (par y)) eqn:Ep.
-    + destruct (Hl eq_refl) as [Hpos ->]. cbn. lia.
-    + rewrite (Hnl eq_refl). exact Hnn.
-  - rewrite E2. intros Ep. destruct (Hl Ep) as [Hpos ->]. specialize (Hs Ep). cbn [LaxSem.value LaxSem.bound].
-    rewrite len_tokens in *. cbn [par todo taskq inq wk outq]. rewrite app_length. cbn [length]. lia.
-  - rewrite Hjobs, app_length. cbn [length]. lia.
-  - exact Hw.
-  - destruct (putlocks (par y)) eqn:Ep.
-    + destruct (Hl eq_refl) as [Hpos ->]. exact Hb.
-    + rewrite (Hnl eq_refl). exact Hb.
+  destruct r; try discriminate; intros H; inversion H; subst y'; clear H.
+  - (* accepted *)
+    destruct (apply_spec _ _ Hnn Est) as ([E1 E2 E3 E4] & Hp0 & (x & Hjobs & HJx & Hrx) & Hl & Hnl).
+    set (jn := Z.of_nat (length (jobs (par y)))) in *.
+    assert (Hget : forall j, get_job s' j = if j =? jn then Some x else get_job (par y) j).
+    { intros j. rewrite !get_job_gj, Hjobs. apply gj_app_new. }
+    assert (Hfresh : get_job (par y) jn = None) by (rewrite get_job_gj; apply gj_fresh).
+    constructor; cbn [par todo taskq inq wk outq].
+    + intros j. rewrite cnt_tokens; cbn [par todo taskq inq wk outq]. rewrite cnt_app, cnt_one.
+      specialize (Ht j). rewrite cnt_tokens in Ht. unfold unres in *. rewrite Hget.
+      destruct (Z.eqb_spec j jn) as [->|Hne].
+      * rewrite Hfresh in Ht. rewrite Hrx, Z.eqb_refl. cbn in *. lia.
+      * replace (jn =? j) with false by lia. cbn [one]. lia.
+    + intros k0 y0. rewrite Hget. destruct (Z.eqb_spec k0 jn) as [->|Hne].
+      * intros H; inversion H; subst y0. exact HJx.
+      * apply Hj.
+    + exact Hm.
+    + rewrite E1. exact Hst.
+    + destruct (putlocks (par y)) eqn:Ep.
+      * destruct (Hl eq_refl) as [Hpos ->]. cbn. lia.
+      * rewrite (Hnl eq_refl). exact Hnn.
+    + rewrite E1, E2. intros Ep Hp. destruct (Hl Ep) as [Hpos ->]. specialize (Hs Ep Hp). cbn [LaxSem.value LaxSem.bound].
+      rewrite len_tokens in *. cbn [par todo taskq inq wk outq]. rewrite app_length. cbn [length]. lia.
+    + rewrite E1, Hjobs, app_length. cbn [length]. specialize (Hc0 Hp0). split; [lia|intros _; lia].
+    + exact Hw.
+    + destruct (putlocks (par y)) eqn:Ep.
+      * destruct (Hl eq_refl) as [Hpos ->]. exact Hb.
+      * rewrite (Hnl eq_refl). exact Hb.
+    + rewrite E1, Hp0. discriminate.
+  - (* refused: the pool is closed, no job is created *)
+    destruct (apply_refused_spec _ _ Est) as ([E1 E2 E3 E4] & Hjobs & Hsem & Hp).
+    assert (Hget : forall j, get_job s' j = get_job (par y) j) by (intros j; rewrite !get_job_gj, Hjobs; reflexivity).
+    constructor; cbn [par todo taskq inq wk outq].
+    + intros j. specialize (Ht j). unfold unres in *. rewrite Hget. exact Ht.
+    + intros k0 y0. rewrite Hget. apply Hj.
+    + exact Hm.
+    + rewrite E1. exact Hst.
+    + rewrite Hsem. exact Hnn.
+    + rewrite E1. intros _ Hp0. contradiction.
+    + rewrite E1, Hjobs. split; [lia|intros Hp0; contradiction].
+    + exact Hw.
+    + rewrite Hsem. exact Hb.
+    + rewrite E1, Hsem. exact Hcl.
 Qed.
 
 Lemma inv_put n y y' : YInv n y -> sys_step y SPut = Some y' -> YInv n y'.
 Proof.
-  intros [Ht Hj Hm Hr Hnn Hs Hc Hw Hb]. cbn [sys_step].
+  intros [Ht Hj Hm Hst Hnn Hs Hc Hw Hb Hcl]. cbn [sys_step].
   destruct (taskq y) as [|j r] eqn:Eq; [discriminate|]. intros H; inversion H; subst y'; clear H.
   constructor; cbn [par todo taskq inq wk outq]; try assumption.
   - intros j0. specialize (Ht j0). rewrite cnt_tokens in *. cbn [par todo taskq inq wk outq].
     rewrite Eq in Ht. rewrite cnt_app, cnt_one. rewrite cnt_cons in Ht. lia.
-  - intros Ep. specialize (Hs Ep). rewrite len_tokens in *. cbn [par todo taskq inq wk outq].
+  - intros Ep Hp. specialize (Hs Ep Hp). rewrite len_tokens in *. cbn [par todo taskq inq wk outq].
     rewrite Eq in Hs. rewrite app_length. cbn [length] in *. lia.
 Qed.
 
 Lemma inv_take n y i y' : YInv n y -> sys_step y (STake i) = Some y' -> YInv n y'.
 Proof.
-  intros [Ht Hj Hm Hr Hnn Hs Hc Hw Hb]. cbn [sys_step].
+  intros [Ht Hj Hm Hst Hnn Hs Hc Hw Hb Hcl]. cbn [sys_step].
   destruct (nth_error (wk y) i) as [[?|]|] eqn:En; try discriminate.
   destruct (inq y) as [|j r] eqn:Eq; [discriminate|]. intros H; inversion H; subst y'; clear H.
   constructor; cbn [par todo taskq inq wk outq]; try assumption.
@@ -286,7 +348,7 @@ Proof.
     rewrite Eq in Ht. rewrite cnt_cons in Ht. rewrite readys_app. cbn [readys flat_map]. rewrite app_nil_r.
     pose proof (cnt_somes_upd j0 (Some j) _ _ _ En) as Hu. cbn [ocnt] in Hu. lia.
   - intros j0 p t Hin. apply in_app_or in Hin. destruct Hin as [Hin|[Hin|[]]]; [eauto|discriminate].
-  - intros Ep. specialize (Hs Ep). rewrite len_tokens in *. cbn [par todo taskq inq wk outq].
+  - intros Ep Hp. specialize (Hs Ep Hp). rewrite len_tokens in *. cbn [par todo taskq inq wk outq].
     rewrite Eq in Hs. rewrite readys_app. cbn [readys flat_map]. rewrite app_nil_r.
     pose proof (len_somes_upd (Some j) _ _ _ En) as Hu. cbn [olen length] in *. lia.
   - apply upd_nth_nonempty. exact Hw.
@@ -294,7 +356,7 @@ Qed.
 
 Lemma inv_finish n y i y' : YInv n y -> sys_step y (SFinish i) = Some y' -> YInv n y'.
 Proof.
-  intros [Ht Hj Hm Hr Hnn Hs Hc Hw Hb]. cbn [sys_step].
+  intros [Ht Hj Hm Hst Hnn Hs Hc Hw Hb Hcl]. cbn [sys_step].
   destruct (nth_error (wk y) i) as [[j|]|] eqn:En; try discriminate.
   intros H; inversion H; subst y'; clear H.
   constructor; cbn [par todo taskq inq wk outq]; try assumption.
@@ -303,7 +365,7 @@ Proof.
     pose proof (cnt_somes_upd j0 None _ _ _ En) as Hu. cbn [ocnt] in Hu. lia.
   - intros j0 p t Hin. apply in_app_or in Hin. destruct Hin as [Hin|[Hin|[]]]; [eauto|].
     inversion Hin; reflexivity.
-  - intros Ep. specialize (Hs Ep). rewrite len_tokens in *. cbn [par todo taskq inq wk outq].
+  - intros Ep Hp. specialize (Hs Ep Hp). rewrite len_tokens in *. cbn [par todo taskq inq wk outq].
     rewrite readys_app. cbn [readys flat_map]. rewrite app_nil_r, app_length.
     pose proof (len_somes_upd None _ _ _ En) as Hu. cbn [olen length] in *. lia.
   - apply upd_nth_nonempty. exact Hw.
@@ -311,19 +373,20 @@ Qed.
 
 Lemma inv_recv n y y' : YInv n y -> sys_step y SRecv = Some y' -> YInv n y'.
 Proof.
-  intros [Ht Hj Hm Hr Hnn Hs Hc Hw Hb]. cbn [sys_step].
+  intros [Ht Hj Hm Hst Hnn Hs Hc Hw Hb Hcl]. cbn [sys_step].
   destruct (outq y) as [|[j p|j p t] r] eqn:Eq; [discriminate| |]; intros H; inversion H; subst y'; clear H.
   - destruct (ack_spec (par y) j p Hj) as ([E1 E2 E3 E4] & Esem & Elen & Hun & HJ').
     constructor; cbn [par todo taskq inq wk outq]; try assumption.
     + intros j0. specialize (Ht j0). rewrite cnt_tokens in *. cbn [par todo taskq inq wk outq].
       rewrite Eq in Ht. rewrite ?readys_ack, ?readys_ready in Ht. rewrite Hun. exact Ht.
     + intros j0 p0 t Hin. apply (Hm j0 p0 t). right. exact Hin.
-    + rewrite E1. exact Hr.
+    + rewrite E1. exact Hst.
     + rewrite Esem. exact Hnn.
-    + rewrite E2, Esem. intros Ep. specialize (Hs Ep). rewrite len_tokens in *. cbn [par todo taskq inq wk outq].
+    + rewrite E1, E2, Esem. intros Ep Hp. specialize (Hs Ep Hp). rewrite len_tokens in *. cbn [par todo taskq inq wk outq].
       rewrite Eq in Hs. rewrite ?readys_ack, ?readys_ready in Hs. exact Hs.
-    + rewrite Elen. exact Hc.
+    + rewrite E1, Elen. exact Hc.
     + rewrite Esem. exact Hb.
+    + rewrite E1, Esem. exact Hcl.
   - assert (Htag : t = tag_of j) by (apply (Hm j p t); left; reflexivity).
     assert (Hu : unres (par y) j = true).
     { specialize (Ht j). rewrite cnt_tokens, Eq in Ht. rewrite ?readys_ack, ?readys_ready in Ht.
@@ -338,19 +401,41 @@ Proof.
       * rewrite Hun. rewrite Hu in Ht. cbn [one] in *. lia.
       * rewrite Hoth by congruence. cbn [one] in Ht. lia.
     + intros j0 p0 t0 Hin. apply (Hm j0 p0 t0). right. exact Hin.
-    + rewrite E1. exact Hr.
+    + rewrite E1. exact Hst.
     + rewrite Esem. unfold LaxSem.release. destruct (_ <? _); cbn; lia.
-    + rewrite E2, Esem. intros Ep. specialize (Hs Ep). unfold LaxSem.release.
+    + rewrite E1, E2, Esem. intros Ep Hp. specialize (Hs Ep Hp). unfold LaxSem.release.
       rewrite len_tokens in *. cbn [par todo taskq inq wk outq]. rewrite Eq in Hs.
       rewrite ?readys_ack, ?readys_ready in Hs. cbn [length] in Hs.
       destruct (LaxSem.value (sem (par y)) <? LaxSem.bound (sem (par y))) eqn:El; cbn; lia.
-    + rewrite Elen. exact Hc.
+    + rewrite E1, Elen. exact Hc.
     + rewrite Esem. unfold LaxSem.release. destruct (_ <? _); exact Hb.
+    + rewrite E1, Esem. intros Hp. specialize (Hcl Hp). unfold LaxSem.release. destruct (_ <? _); cbn; lia.
+Qed.
+
+Lemma inv_close n y y' : YInv n y -> sys_step y SClose = Some y' -> YInv n y'.
+Proof.
+  intros [Ht Hj Hm Hst Hnn Hs [Hc Hc0] Hw Hb Hcl]. cbn [sys_step].
+  destruct (pstate (par y) =? 0) eqn:Ep0; [|discriminate]. intros H; inversion H; subst y'; clear H.
+  assert (Hp0 : pstate (par y) = 0) by lia.
+  destruct (close_spec (par y) Hp0) as (E1 & Ejobs & E2 & E3 & Esem).
+  assert (Hget : forall j, get_job (fst (step (par y) EClose)) j = get_job (par y) j)
+    by (intros j; rewrite !get_job_gj, Ejobs; reflexivity).
+  constructor; cbn [par todo taskq inq wk outq].
+  - intros j. specialize (Ht j). unfold unres in *. rewrite Hget. exact Ht.
+  - intros k0 y0. rewrite Hget. apply Hj.
+  - exact Hm.
+  - right. exact E1.
+  - rewrite Esem. unfold LaxSem.clear. cbn. lia.
+  - intros _ Hp. rewrite E1 in Hp. discriminate.
+  - rewrite Ejobs, E1. split; [exact Hc|intros H; discriminate].
+  - exact Hw.
+  - rewrite Esem. exact Hb.
+  - intros _. rewrite Esem. unfold LaxSem.clear. cbn. lia.
 Qed.
 
 Theorem inv_step n y a y' : YInv n y -> sys_step y a = Some y' -> YInv n y'.
 Proof.
-  destruct a; [apply inv_submit|apply inv_put|apply inv_take|apply inv_finish|apply inv_recv].
+  destruct a; [apply inv_submit|apply inv_put|apply inv_take|apply inv_finish|apply inv_recv|apply inv_close].
 Qed.
 
 (* ------------------------------------------------------------------ the initial state *)
@@ -379,33 +464,39 @@ Proof.
   - intros j. unfold unres. rewrite Hg. reflexivity.
   - intros k x. rewrite Hg. discriminate.
   - intros j p t [].
-  - exact C.
+  - left. exact C.
   - rewrite B. cbn. lia.
-  - intros _. rewrite B. cbn. lia.
+  - intros _ _. rewrite B. cbn. lia.
   - rewrite A. cbn. lia.
   - destruct (Z.to_nat (c_n c)) eqn:E; [lia|]. cbn. discriminate.
   - rewrite B. cbn. lia.
+  - rewrite C. discriminate.
 Qed.
 
 (* ------------------------------------------------------------------ every schedule is finite *)
 Theorem step_decreases y a y' : sys_step y a = Some y' -> (measure y' < measure y)%nat.
 Proof.
-  unfold measure. destruct a; cbn [sys_step].
+  unfold measure, work. destruct a; cbn [sys_step].
   - destruct (todo y) as [|k]; [discriminate|].
-    destruct (step (par y) (EApply None None None None)) as [s' r]. destruct r; try discriminate.
-    intros H; inversion H; subst y'; clear H. cbn [todo taskq inq wk outq]. rewrite app_length. cbn [length]. lia.
+    destruct (step (par y) (EApply None None None None)) as [s' r] eqn:Est.
+    assert (Hp : pstate s' = pstate (par y)) by (rewrite <- (pstate_apply (par y)), Est; reflexivity).
+    destruct r; try discriminate; intros H; inversion H; subst y'; clear H;
+      cbn [par todo taskq inq wk outq]; rewrite Hp, ?app_length; cbn [length]; lia.
   - destruct (taskq y) as [|j r]; [discriminate|]. intros H; inversion H; subst y'; clear H.
-    cbn [todo taskq inq wk outq]. rewrite app_length. cbn [length]. lia.
+    cbn [par todo taskq inq wk outq]. rewrite app_length. cbn [length]. lia.
   - destruct (nth_error (wk y) i) as [[?|]|] eqn:En; try discriminate.
     destruct (inq y) as [|j r]; [discriminate|]. intros H; inversion H; subst y'; clear H.
-    cbn [todo taskq inq wk outq]. rewrite app_length. cbn [length].
+    cbn [par todo taskq inq wk outq]. rewrite app_length. cbn [length].
     pose proof (len_somes_upd (Some j) _ _ _ En) as Hu. cbn [olen] in Hu. lia.
   - destruct (nth_error (wk y) i) as [[j|]|] eqn:En; try discriminate.
     intros H; inversion H; subst y'; clear H.
-    cbn [todo taskq inq wk outq]. rewrite app_length. cbn [length].
+    cbn [par todo taskq inq wk outq]. rewrite app_length. cbn [length].
     pose proof (len_somes_upd None _ _ _ En) as Hu. cbn [olen] in Hu. lia.
   - destruct (outq y) as [|[j p|j p t] r]; [discriminate| |]; intros H; inversion H; subst y'; clear H;
-      cbn [todo taskq inq wk outq length]; lia.
+      cbn [par todo taskq inq wk outq length]; rewrite ?pstate_ack, ?pstate_ready; lia.
+  - destruct (pstate (par y) =? 0) eqn:Ep0; [|discriminate]. intros H; inversion H; subst y'; clear H.
+    cbn [par todo taskq inq wk outq].
+    destruct (close_spec (par y)) as (E1 & _); [lia|]. rewrite E1. cbn. lia.
 Qed.
 
 Theorem schedules_are_finite : forall sched y y',
@@ -418,36 +509,48 @@ Proof.
 Qed.
 
 (* ------------------------------------------------------------------ never stuck before the end *)
-Theorem progress n y : YInv n y -> (0 < measure y)%nat -> exists a y', sys_step y a = Some y'.
+Lemma measure_work y : measure y = (work y + (if Z.eqb (pstate (par y)) 0 then 1 else 0))%nat.
+Proof. reflexivity. Qed.
+
+(* while work remains, a step OTHER than close() is enabled: the system never depends on
+   close() being called, and never deadlocks on the slot semaphore *)
+Theorem progress n y : YInv n y -> (0 < work y)%nat ->
+  exists a y', a <> SClose /\ sys_step y a = Some y'.
 Proof.
-  intros [Ht Hj Hm Hr Hnn Hs Hc Hw Hb] Hpos. unfold measure in Hpos.
+  intros [Ht Hj Hm Hst Hnn Hs Hc Hw Hb Hcl] Hpos. unfold work in Hpos.
   destruct (outq y) as [|m r] eqn:Eo.
-  2:{ exists SRecv. cbn [sys_step]. rewrite Eo. destruct m; eauto. }
+  2:{ exists SRecv. cbn [sys_step]. rewrite Eo. destruct m; eexists; (split; [discriminate|reflexivity]). }
   destruct (taskq y) as [|j r] eqn:Eq.
-  2:{ exists SPut. cbn [sys_step]. rewrite Eq. eauto. }
+  2:{ exists SPut. cbn [sys_step]. rewrite Eq. eexists; (split; [discriminate|reflexivity]). }
   destruct (wk y) as [|w ws] eqn:Ew; [congruence|].
   destruct w as [j|].
-  { exists (SFinish 0). cbn [sys_step]. rewrite Ew. cbn. eauto. }
+  { exists (SFinish 0). cbn [sys_step]. rewrite Ew. cbn. eexists; (split; [discriminate|reflexivity]). }
   destruct (inq y) as [|j r] eqn:Ei.
-  2:{ exists (STake 0). cbn [sys_step]. rewrite Ew, Ei. cbn. eauto. }
+  2:{ exists (STake 0). cbn [sys_step]. rewrite Ew, Ei. cbn. eexists; (split; [discriminate|reflexivity]). }
   destruct (somes ws) as [|j r] eqn:Esm.
   2:{ (* some other worker is busy *)
     assert (Hex : exists i j, nth_error ws i = Some (Some j)).
     { clear - Esm. revert j r Esm. induction ws as [|[k|] ws IH]; intros j r Esm; cbn in Esm; [discriminate| |].
       - exists 0%nat, k. reflexivity.
       - destruct (IH _ _ Esm) as (i & j' & H). exists (S i), j'. exact H. }
-    destruct Hex as (i & j' & Hi). exists (SFinish (S i)). cbn [sys_step]. rewrite Ew. cbn [nth_error]. rewrite Hi. eauto. }
-  (* everything is empty: the client must have calls left, and a slot is free *)
+    destruct Hex as (i & j' & Hi). exists (SFinish (S i)). cbn [sys_step]. rewrite Ew. cbn [nth_error]. rewrite Hi.
+    eexists; (split; [discriminate|reflexivity]). }
+  (* everything is empty: the client must have calls left; a slot is free, or the pool is closed
+     and the call is refused at once *)
   assert (Htk : tokens y = []) by (unfold tokens; rewrite Eq, Ei, Ew, Eo; cbn [somes]; rewrite Esm; reflexivity).
   destruct (todo y) as [|k] eqn:Etd.
   { exfalso. cbn [somes length] in Hpos. rewrite Esm in Hpos. cbn in Hpos. lia. }
   exists SSubmit. cbn [sys_step]. rewrite Etd.
   Local Transparent step.
-  unfold step, do_apply. cbn [putlocks with_sigs sem pstate]. rewrite Hr. cbn [Z.eqb negb].
-  destruct (putlocks (par y)) eqn:Ep; cbn [andb].
-  - specialize (Hs eq_refl). rewrite Htk in Hs. cbn in Hs.
-    destruct (LaxSem.value (sem (par y)) =? 0) eqn:Ev; [lia|]. eauto.
-  - eauto.
+  unfold step, do_apply. cbn [putlocks with_sigs sem pstate].
+  destruct Hst as [Hp|Hp]; rewrite Hp; cbn [Z.eqb negb].
+  - destruct (putlocks (par y)) eqn:Ep; cbn [andb].
+    + specialize (Hs eq_refl Hp). rewrite Htk in Hs. cbn in Hs.
+      destruct (LaxSem.value (sem (par y)) =? 0) eqn:Ev; [lia|]. eexists; (split; [discriminate|reflexivity]).
+    + eexists; (split; [discriminate|reflexivity]).
+  - (* closed: the call is refused at once, whatever the slots *)
+    eexists; (split; [discriminate|reflexivity]).
+  Local Opaque step.
 Qed.
 
 (* ------------------------------------------------------------------ reachable states *)
@@ -471,8 +574,9 @@ Proof.
   intros H. induction H as [|y a y' _ (tr & IH) Hs]; [exists []; reflexivity|].
   destruct a; cbn [sys_step] in Hs.
   - destruct (todo y); [discriminate|].
-    destruct (step (par y) (EApply None None None None)) as [s' r] eqn:E. destruct r; try discriminate.
-    inversion Hs; subst y'. exists (tr ++ [EApply None None None None]). rewrite run_snoc, <- IH, E. reflexivity.
+    destruct (step (par y) (EApply None None None None)) as [s' r] eqn:E.
+    destruct r; try discriminate; inversion Hs; subst y'; exists (tr ++ [EApply None None None None]);
+      rewrite run_snoc, <- IH, E; reflexivity.
   - destruct (taskq y); [discriminate|]. inversion Hs; subst y'. exists tr. exact IH.
   - destruct (nth_error (wk y) i) as [[?|]|]; try discriminate. destruct (inq y); [discriminate|].
     inversion Hs; subst y'. exists tr. exact IH.
@@ -480,6 +584,8 @@ Proof.
   - destruct (outq y) as [|[j p|j p t] r]; [discriminate| |]; inversion Hs; subst y'; cbn [par].
     + exists (tr ++ [EAck j None p]). rewrite run_snoc, <- IH. reflexivity.
     + exists (tr ++ [EReady j None true t]). rewrite run_snoc, <- IH. reflexivity.
+  - destruct (pstate (par y) =? 0); [|discriminate]. inversion Hs; subst y'; cbn [par].
+    exists (tr ++ [EClose]). rewrite run_snoc, <- IH. reflexivity.
 Qed.
 
 Lemma srun_reach c n : forall sched y y', sreach c n y -> srun y sched = Some y' -> sreach c n y'.
@@ -489,94 +595,126 @@ Proof.
   - destruct (sys_step y a) as [y1|] eqn:E; [|discriminate]. apply IH. eapply sr_step; eauto.
 Qed.
 
-Lemma measure_init c n : measure (sinit c n) = (6 * n)%nat.
-Proof. unfold measure, sinit. cbn [todo taskq inq wk outq]. rewrite somes_repeat_none. cbn [length]. lia. Qed.
+Lemma measure_init c n : measure (sinit c n) = (6 * n + 1)%nat.
+Proof.
+  unfold measure, work, sinit. cbn [par todo taskq inq wk outq]. rewrite somes_repeat_none. cbn [length].
+  unfold init. match goal with |- context [start_n ?k ?i ?s0] => destruct (start_n_frame k i s0) as (_ & _ & C & _) end.
+  cbn [pstate] in C. rewrite C. cbn. lia.
+Qed.
 
-(* no schedule of the closed system is longer than six steps per job *)
+(* no schedule of the closed system is longer than six steps per job, plus the close() call *)
 Theorem every_schedule_is_short c n sched y :
-  srun (sinit c n) sched = Some y -> (length sched <= 6 * n)%nat.
+  srun (sinit c n) sched = Some y -> (length sched <= 6 * n + 1)%nat.
 Proof. intros H. pose proof (schedules_are_finite _ _ _ H) as Hm. rewrite measure_init in Hm. lia. Qed.
 
-Definition all_done (n : nat) (y : sys) : Prop :=
-  length (jobs (par y)) = n
-  /\ (forall j, 0 <= j < Z.of_nat n ->
-        exists x, get_job (par y) j = Some x /\ ready x = true
-                  /\ value x = Some (PValue (tag_of j)) /\ cb_succ x = 1 /\ cb_err x = 0)
-  /\ (putlocks (par y) = true -> LaxSem.value (sem (par y)) = LaxSem.bound (sem (par y)))
+(* every job that exists is resolved, with its own result, exactly once; nothing is queued *)
+Definition all_resolved (y : sys) : Prop :=
+  (forall j, 0 <= j < Z.of_nat (length (jobs (par y))) ->
+     exists x, get_job (par y) j = Some x /\ ready x = true
+               /\ value x = Some (PValue (tag_of j)) /\ cb_succ x = 1 /\ cb_err x = 0)
   /\ todo y = 0%nat /\ taskq y = [] /\ inq y = [] /\ outq y = [] /\ somes (wk y) = [].
 
-Lemma done_at_zero n y : YInv n y -> measure y = 0%nat -> all_done n y.
+Lemma done_at_zero n y : YInv n y -> work y = 0%nat ->
+  all_resolved y
+  /\ (length (jobs (par y)) <= n)%nat
+  /\ (pstate (par y) = 0 -> length (jobs (par y)) = n
+                             /\ (putlocks (par y) = true -> LaxSem.value (sem (par y)) = LaxSem.bound (sem (par y)))).
 Proof.
-  intros [Ht Hj Hm Hr Hnn Hs Hc Hw Hb] H0. unfold measure in H0.
+  intros [Ht Hj Hm Hst Hnn Hs [Hc Hc0] Hw Hb Hcl] H0. unfold work in H0.
   assert (E1 : todo y = 0%nat) by lia.
   assert (E2 : taskq y = []) by (apply length_zero_iff_nil; lia).
   assert (E3 : inq y = []) by (apply length_zero_iff_nil; lia).
   assert (E4 : somes (wk y) = []) by (apply length_zero_iff_nil; lia).
   assert (E5 : outq y = []) by (apply length_zero_iff_nil; lia).
   assert (Htk : tokens y = []) by (unfold tokens; rewrite E2, E3, E4, E5; reflexivity).
-  unfold all_done. split; [lia|]. split; [|split; [|auto 10]].
-  - intros j Hjr. destruct (nth_error (jobs (par y)) (Z.to_nat j)) as [x|] eqn:En.
+  split; [|split; [lia|]].
+  - unfold all_resolved. split; [|auto 10].
+    intros j Hjr. destruct (nth_error (jobs (par y)) (Z.to_nat j)) as [x|] eqn:En.
     2:{ apply nth_error_None in En. lia. }
     assert (Hg : get_job (par y) j = Some x).
     { rewrite get_job_gj. unfold gj. destruct (j <? 0) eqn:E; [lia|exact En]. }
     exists x. split; [exact Hg|]. specialize (Ht j). rewrite Htk in Ht. unfold unres in Ht. rewrite Hg in Ht.
     destruct (ready x) eqn:Er; [|discriminate]. destruct (Hj j x Hg) as (_ & _ & _ & Hrd).
     destruct (Hrd Er) as (A & B & C). auto.
-  - intros Ep. specialize (Hs Ep). rewrite Htk in Hs. cbn in Hs. lia.
+  - intros Hp. specialize (Hc0 Hp). split; [lia|]. intros Ep. specialize (Hs Ep Hp). rewrite Htk in Hs. cbn in Hs. lia.
 Qed.
 
-(* a state where nothing can move is the end: every job resolved once with its own result,
-   every slot back, nothing left in any queue *)
+(* a state where nothing but close() can move: every one of the n jobs is resolved once with
+   its own result, every slot is back (if close() was not called), nothing is left in any queue *)
 Theorem completion c n y :
-  1 <= c_n c -> sreach c n y -> (forall a, sys_step y a = None) -> all_done n y.
+  1 <= c_n c -> sreach c n y -> (forall a, a <> SClose -> sys_step y a = None) ->
+  all_resolved y
+  /\ (length (jobs (par y)) <= n)%nat
+  /\ (pstate (par y) = 0 -> length (jobs (par y)) = n
+                             /\ (putlocks (par y) = true -> LaxSem.value (sem (par y)) = LaxSem.bound (sem (par y)))).
 Proof.
   intros Hn Hr Hstuck. pose proof (sreach_inv _ _ _ Hn Hr) as Hi.
-  apply done_at_zero; [exact Hi|]. destruct (measure y) eqn:Em; [reflexivity|exfalso].
-  destruct (progress n y Hi) as (a & y' & Hs); [lia|]. rewrite Hstuck in Hs. discriminate.
+  apply (done_at_zero n); [exact Hi|]. destruct (work y) eqn:Em; [reflexivity|exfalso].
+  destruct (progress n y Hi) as (a & y' & Hne & Hs); [lia|]. rewrite (Hstuck a Hne) in Hs. discriminate.
 Qed.
 
-(* ... and from every reachable state a schedule to that end exists (no state is doomed) *)
+(* ... and from every reachable state a schedule to that end exists that never calls close()
+   (no state is doomed, and nothing depends on close()) *)
 Theorem can_always_complete c n : 1 <= c_n c -> forall y, sreach c n y ->
-  exists sched y', srun y sched = Some y' /\ all_done n y'.
+  exists sched y', srun y sched = Some y' /\ ~ In SClose sched /\ work y' = 0%nat /\ all_resolved y'.
 Proof.
   intros Hn. assert (H : forall m y, (measure y <= m)%nat -> sreach c n y ->
-                                 exists sched y', srun y sched = Some y' /\ all_done n y').
+                                 exists sched y', srun y sched = Some y' /\ ~ In SClose sched /\ work y' = 0%nat /\ all_resolved y').
   { induction m as [|m IH]; intros y Hm Hr; pose proof (sreach_inv _ _ _ Hn Hr) as Hi.
-    - exists [], y. split; [reflexivity|]. apply done_at_zero; [exact Hi|lia].
-    - destruct (measure y) eqn:Em.
-      + exists [], y. split; [reflexivity|]. apply done_at_zero; assumption.
-      + destruct (progress n y Hi) as (a & y1 & Hs); [lia|].
+    - assert (Hw0 : work y = 0%nat) by (rewrite measure_work in Hm; lia).
+      exists [], y. split; [reflexivity|]. split; [intros []|]. split; [exact Hw0|]. apply (done_at_zero n); assumption.
+    - destruct (work y) eqn:Em.
+      + exists [], y. split; [reflexivity|]. split; [intros []|]. split; [exact Em|]. apply (done_at_zero n); assumption.
+      + destruct (progress n y Hi) as (a & y1 & Hne & Hs); [lia|].
         pose proof (step_decreases _ _ _ Hs) as Hd.
-        destruct (IH y1) as (sched & y' & Hrun & Hdone); [lia|eapply sr_step; eauto|].
-        exists (a :: sched), y'. cbn [srun]. rewrite Hs. auto. }
+        destruct (IH y1) as (sched & y' & Hrun & Hnc & Hw0 & Hdone); [lia|eapply sr_step; eauto|].
+        exists (a :: sched), y'. cbn [srun]. rewrite Hs. split; [exact Hrun|]. split; [|auto].
+        intros [E|Hin]; [congruence|contradiction]. }
   intros y Hr. apply (H (measure y)); [lia|exact Hr].
 Qed.
 
-(* every maximal schedule from the start ends in that state, within 6 n steps *)
+(* every maximal schedule from the start ends closed, with every job that was accepted resolved,
+   within 6 n + 1 steps *)
 Theorem every_maximal_schedule_completes c n sched y :
   1 <= c_n c -> srun (sinit c n) sched = Some y -> (forall a, sys_step y a = None) ->
-  all_done n y /\ (length sched <= 6 * n)%nat.
+  all_resolved y /\ pstate (par y) = 1 /\ (length (jobs (par y)) <= n)%nat /\ (length sched <= 6 * n + 1)%nat.
 Proof.
-  intros Hn Hrun Hstuck. split.
-  - apply (completion c n y Hn); [|exact Hstuck]. eapply srun_reach; [apply sr_init|exact Hrun].
-  - eapply every_schedule_is_short; eauto.
+  intros Hn Hrun Hstuck.
+  assert (Hr : sreach c n y) by (eapply srun_reach; [apply sr_init|exact Hrun]).
+  destruct (completion c n y Hn Hr) as (A & B & C); [intros a _; apply Hstuck|].
+  split; [exact A|]. split; [|split; [exact B|eapply every_schedule_is_short; eauto]].
+  destruct (sreach_inv _ _ _ Hn Hr) as [_ _ _ [Hp|Hp] _ _ _ _ _ _]; [|exact Hp].
+  exfalso. specialize (Hstuck SClose). cbn [sys_step] in Hstuck. rewrite Hp in Hstuck. discriminate.
 Qed.
+
+(* jobs submitted before close() keep their results; the ones after it are refused and create
+   nothing: with close() called after the last submission all n jobs exist and are resolved *)
+Theorem close_keeps_results c n sched y :
+  1 <= c_n c -> srun (sinit c n) sched = Some y -> (forall a, sys_step y a = None) ->
+  forall j, 0 <= j < Z.of_nat (length (jobs (par y))) ->
+    exists x, get_job (par y) j = Some x /\ ready x = true /\ value x = Some (PValue (tag_of j))
+              /\ cb_succ x = 1 /\ cb_err x = 0.
+Proof. intros Hn Hr Hs. exact (proj1 (proj1 (every_maximal_schedule_completes c n sched y Hn Hr Hs))). Qed.
 
 (* non-vacuity: a concrete maximal schedule, evaluated *)
 Example closed_system_runs :
   let c := mkcfg 2 None None None None 1 true false in
   let r := auto_run 100 [0;1;2;3;4;5;6;0;3;5;1;2;4;6;0;1;2;3;4;5;6;0;3;5;1;2;4;6]%nat (sinit c 4) in
-  srun (sinit c 4) (snd r) = Some (fst r) /\ measure (fst r) = 0%nat /\ length (snd r) = 24%nat.
-Proof. vm_compute. auto. Qed.
+  srun (sinit c 4) (snd r) = Some (fst r) /\ measure (fst r) = 0%nat
+  /\ map (fun x => (ready x, value x)) (jobs (par (fst r)))
+     = [(true, Some (PValue 0)); (true, Some (PValue 1))]   (* close() came after two submissions: the other two were refused *)
+  /\ In SClose (snd r).
+Proof. vm_compute. auto 10. Qed.
 
-(* slot conservation in the closed system: free slots + jobs in flight = the bound, always *)
+(* slot conservation in the closed system: free slots + jobs in flight = the bound, always
+   (until close(), which frees every slot) *)
 Theorem slots_account c n y :
-  1 <= c_n c -> sreach c n y -> putlocks (par y) = true ->
+  1 <= c_n c -> sreach c n y -> putlocks (par y) = true -> pstate (par y) = 0 ->
   LaxSem.value (sem (par y)) + Z.of_nat (length (tokens y)) = LaxSem.bound (sem (par y))
   /\ 0 <= LaxSem.value (sem (par y)).
 Proof.
-  intros Hn Hr Ep. destruct (sreach_inv _ _ _ Hn Hr) as [Ht Hj Hm Hrn Hnn Hs Hc Hw Hb].
-  split; [exact (Hs Ep)|exact Hnn].
+  intros Hn Hr Ep Hp. destruct (sreach_inv _ _ _ Hn Hr) as [Ht Hj Hm Hrn Hnn Hs Hc Hw Hb Hcl].
+  split; [exact (Hs Ep Hp)|exact Hnn].
 Qed.
 
 (* ... and in-flight means unresolved: a job id is in exactly one of the queues / workers iff it
@@ -584,11 +722,12 @@ Qed.
 Theorem in_flight_iff_unresolved c n y j :
   1 <= c_n c -> sreach c n y ->
   count_occ Z.eq_dec (tokens y) j = if unres (par y) j then 1%nat else 0%nat.
-Proof. intros Hn Hr. destruct (sreach_inv _ _ _ Hn Hr) as [Ht _ _ _ _ _ _ _ _]. exact (Ht j). Qed.
+Proof. intros Hn Hr. destruct (sreach_inv _ _ _ Hn Hr) as [Ht _ _ _ _ _ _ _ _ _]. exact (Ht j). Qed.
 
-Theorem all_slots_back c n sched y :
-  1 <= c_n c -> srun (sinit c n) sched = Some y -> (forall a, sys_step y a = None) ->
-  putlocks (par y) = true -> LaxSem.value (sem (par y)) = LaxSem.bound (sem (par y)).
+Theorem all_slots_back c n y :
+  1 <= c_n c -> sreach c n y -> (forall a, a <> SClose -> sys_step y a = None) ->
+  pstate (par y) = 0 -> putlocks (par y) = true ->
+  LaxSem.value (sem (par y)) = LaxSem.bound (sem (par y)).
 Proof.
-  intros Hn Hr Hs. exact (proj1 (proj2 (proj2 (proj1 (every_maximal_schedule_completes c n sched y Hn Hr Hs))))).
+  intros Hn Hr Hs Hp. exact (proj2 (proj2 (proj2 (completion c n y Hn Hr Hs)) Hp)).
 Qed.
